@@ -79,6 +79,7 @@ struct Model
     usize cap = 0;
     usize budget = 0;  // bytes of varying payload reserved
     usize fixed[N] = {};
+    bool cap_exact = true;  // false after copy/move: the property leaves the capacity of the target open
 };
 
 template <class LT>
@@ -221,11 +222,17 @@ Vec make_vec(usize cap, usize bytes, const usize* fixed, const Alloc& a)
 }
 
 // ---- observation: compare every public read path with the model ---------------------------------------------------
+template <class X>
+inline constexpr bool IS_SPAN = false;
+template <class X>
+inline constexpr bool IS_SPAN<cntgs::Span<X>> = true;
+
 template <usize I, class X, usize N>
-void check_field(const X& x, const MElem<N>& e, int id)
+void check_field(const X& x, const MElem<N>& e, int id, usize align)
 {
-    if constexpr (std::is_class_v<X> && !std::is_same_v<X, Tr> && !std::is_same_v<X, Cm>)
-    {  // a cntgs::Span
+    if constexpr (IS_SPAN<X>)
+    {
+        verif_assert(addr_of(x.data()) % align == 0, (id / 100) * 100 + 96);  // C03
         verif_assert(x.size() == e.len[I], id + 2 * static_cast<int>(I));
         for (usize t = 0; t < (SMAX ? SMAX : 1); ++t)
         {
@@ -238,14 +245,49 @@ void check_field(const X& x, const MElem<N>& e, int id)
     }
     else
     {
+        verif_assert(addr_of(&x) % align == 0, (id / 100) * 100 + 96);  // C03
         verif_observe(val(x));
         verif_assert(val(x) == e.val[I][0], id + 2 * static_cast<int>(I) + 1);
     }
 }
-template <class Ref, usize N, usize... I>
-void check_elem(const Ref& r, const MElem<N>& e, int id, std::index_sequence<I...>)
+template <class LT, class Ref, usize... I>
+void check_elem_impl(const Ref& r, const MElem<LT::N>& e, int id, std::index_sequence<I...>)
 {
-    (check_field<I>(cntgs::get<I>(r), e, id), ...);
+    (check_field<I>(cntgs::get<I>(r), e, id, LT::align[I]), ...);
+    // C04: fields in parameter order inside [data_begin, data_end)
+    verif_assert(addr_of(r.data_begin()) <= addr_of(r.data_end()), (id / 100) * 100 + 98);
+}
+template <class LT, class Ref>
+void check_elem(const Ref& r, const MElem<LT::N>& e, int id)
+{
+    check_elem_impl<LT>(r, e, id, typename LT::Seq{});
+}
+
+// number of Tr objects the model holds (C06: live objects are exactly the logically held ones)
+template <class LT, class... P>
+usize tr_count_impl(const Model<LT::N>& m, L<P...>)
+{
+    const bool is_tr[LT::N] = {std::is_same_v<typename PI<P>::V, Tr>...};
+    usize n = 0;
+    for (usize i = 0; i < KMAX; ++i)
+    {
+        if (i < m.n)
+        {
+            for (usize j = 0; j < LT::N; ++j)
+            {
+                if (is_tr[j])
+                {
+                    n += m.e[i].len[j];
+                }
+            }
+        }
+    }
+    return n;
+}
+template <class LT>
+usize tr_count(const Model<LT::N>& m)
+{
+    return tr_count_impl<LT>(m, LT{});
 }
 
 template <class LT, class Vec, usize... I>
@@ -274,31 +316,60 @@ void inv(Vec& v, const Model<LT::N>& m, int base)
     verif_observe(static_cast<u64>(cv.data_end() - cv.data_begin()));
     verif_assert(cv.size() == m.n, base + 1);
     verif_assert(cv.empty() == (m.n == 0), base + 2);
-    verif_assert(cv.capacity() == m.cap, base + 3);
+    verif_assert(m.cap_exact ? cv.capacity() == m.cap : cv.capacity() >= m.n, base + 3);
     check_fixed_sizes<LT>(cv, m, base + 4, std::make_index_sequence<LT::NFIXED>{});
     for (usize i = 0; i < KMAX; ++i)
     {
         if (i < m.n && i < cv.size())
         {
-            check_elem(v[i], m.e[i], base + 10, typename LT::Seq{});
-            check_elem(cv[i], m.e[i], base + 40, typename LT::Seq{});
+            check_elem<LT>(v[i], m.e[i], base + 10);
+            check_elem<LT>(cv[i], m.e[i], base + 40);
         }
     }
     if (m.n > 0 && cv.size() > 0)
     {
-        check_elem(cv.front(), m.e[0], base + 70, typename LT::Seq{});
-        check_elem(v.back(), m.e[m.n - 1], base + 70, typename LT::Seq{});
+        check_elem<LT>(cv.front(), m.e[0], base + 70);
+        check_elem<LT>(v.back(), m.e[m.n - 1], base + 70);
     }
     usize i = 0;
     for (auto it = cv.begin(); it != cv.end() && i < KMAX; ++it, ++i)
     {
         if (i < m.n)
         {
-            check_elem(*it, m.e[i], base + 40, typename LT::Seq{});
+            check_elem<LT>(*it, m.e[i], base + 40);
         }
     }
     verif_assert(i == m.n || i == KMAX, base + 5);
     verif_assert(static_cast<usize>(cv.end() - cv.begin()) == m.n, base + 6);
+}
+
+// discriminator of known finding KF-erase-overlap (DESIGN.md section 7): erase on a varying-size list of non-trivially
+// relocatable types where an element behind the erased ones is larger than the bytes that were erased
+template <class... P>
+constexpr bool all_trivial(L<P...>)
+{
+    return (std::is_trivially_copyable_v<typename PI<P>::V> && ...);
+}
+template <class LT>
+bool erase_overlaps(const Model<LT::N>& m, usize first, usize last)
+{
+    if (LT::NVARY == 0 || all_trivial(LT{}) || first == last)
+    {
+        return false;
+    }
+    usize erased = 0, worst = 0;
+    for (usize i = 0; i < KMAX; ++i)
+    {
+        if (i >= first && i < last)
+        {
+            erased += payload_bytes<LT>(m.e[i]);
+        }
+        else if (i >= last && i < m.n && payload_bytes<LT>(m.e[i]) > worst)
+        {
+            worst = payload_bytes<LT>(m.e[i]);
+        }
+    }
+    return worst > erased;
 }
 
 // ---- model-side operations ---------------------------------------------------------------------------------------
